@@ -185,7 +185,13 @@ class Exec(object):
     def _feasible(self, extra):
         if not self.prune:
             return True
-        text, _, _ = tm.script(self.facts + self.pc + [extra], None)
+        hyps = self.facts + self.pc + [extra]
+        from . import axioms
+        try:
+            hyps = hyps + axioms.instantiate(hyps, None, depth=2)
+        except Exception:
+            pass
+        text, _, _ = tm.script(hyps, None)
         return solver.feasible(text)
 
     def branch(self, c, label=''):
@@ -340,6 +346,8 @@ class Exec(object):
             return v
         if k == 'bint':
             return self.fresh(name, BOOL)
+        if k == 'ptr' and ct[1][0] == 'vector':
+            return PtrTo(self.symbolic_of_ctype(ct[1], name, hint))
         if k == 'ptr':
             es = sort_of_ctype(ct[1])
             if ct[1][0] == 'void' or es is None:
